@@ -105,15 +105,15 @@ def _failed_names(path, errs):
         # an error may be reported at the `when_translated … in` line (or the doc comment) that precedes its theorem
         j = k
         while j < len(src) and (re.match(r"^when_translated\s", src[j]) or src[j].startswith("/--") or
-                                (j > 0 and not re.match(r"^(theorem|when_translated)\s", src[j]) and
+                                (j > 0 and not re.match(r"^((?:@\[[^\]]*\]\s*)?theorem|when_translated)\s", src[j]) and
                                  any(src[i].startswith("/--") and "-/" not in "".join(src[i:j]) for i in range(max(0, j - 6), j)))):
             j += 1
-        if j != k and j < len(src) and re.match(r"^theorem\s+(\S+)", src[j]):
+        if j != k and j < len(src) and re.match(r"^(?:@\[[^\]]*\]\s*)?theorem\s+(\S+)", src[j]):
             k = j
-        while k >= 0 and not re.match(r"^theorem\s+(\S+)", src[k]):
+        while k >= 0 and not re.match(r"^(?:@\[[^\]]*\]\s*)?theorem\s+(\S+)", src[k]):
             k -= 1
         if k >= 0:
-            n = re.match(r"^theorem\s+(\S+)", src[k]).group(1)
+            n = re.match(r"^(?:@\[[^\]]*\]\s*)?theorem\s+(\S+)", src[k]).group(1)
             if n not in names:
                 names.append(n)
     return names
